@@ -1,7 +1,7 @@
 SPECIFICATION Spec
 CONSTANTS
   Accepted = {"v1", "v2"}
-  Rejected = {}
+  Rejected <- RejectedPerturb
   TruncPoints = {}
   Spellings = {"rel", "abs", "gofile", "both"}
   Cwds = {"pkg", "root", "sibling", "outside"}
